@@ -348,6 +348,23 @@ def rule_replace_and_slots(check, rule, classes=UPGRADED, only_base_overrides=Fa
                         lits = dict(p.lits)
                         overridden = any(isinstance(x, tuple) and x[0] == 'P' for x in subterms(v_)) or v[0] == 'M' or \
                             any(a[0] in ('raises',) for a in lits)
+                        # (round 8) ... by *its own* argument: a value built from another override (the raw annotation re-wrapped as an
+                        # upgraded one, say) is neither the receiver's value nor what the caller passed for this slot
+                        own_names = (s_, s_.lstrip('_'))
+                        foreign = [x for x in subterms(v_) if isinstance(x, tuple) and x and (
+                            (x[0] == 'P' and x[1] not in own_names + ('kwargs', selft[1])) or
+                            (x[0] in ('S', 'M') and len(x) > 2 and isinstance(x[1], tuple) and x[1] == ('P', 'kwargs') and
+                             not any(k_ in repr(x) for k_ in own_names)))]
+                        built = [x for x in subterms(v_) if isinstance(x, tuple) and x and x[0] in ('C', 'O') and isinstance(x[1], str) and ':' in x[1]]
+                        if overridden and not from_self and foreign and built:
+                            k6 = k + '|derived'
+                            if k6 not in seen:
+                                seen.add(k6)
+                                check.violation(rule, site_of(m, m.node), '%s.replace builds %r from another override (%s) through %s: the slot is neither kept nor '
+                                                'given by the caller, and what is built need not denote what the override denotes'
+                                                % (cname, s_, show(foreign[0])[:40], built[0][1].split(':')[-1]), key=k6, effect=show(v)[:120],
+                                                witness="p.replace(annotation=p.upgraded_annotation.source_value()) under the future flag evaluates a string value twice")
+                            continue
                         if from_self or overridden:
                             if k not in seen:
                                 seen.add(k)
@@ -1414,3 +1431,88 @@ def rule_disagreement_remembered(check, rule):
         else:
             check.holds(rule, st, 'a disagreement between the two annotations is recorded as something else than absence', key=key)
     check.floor(rule, 'annotation agreement tests in _concile_meta', n, 1)
+
+
+def rule_replace_returns_fresh(check, rule):
+    """C16.R2b / C14.R3c (round 8): callers of `replace()` -- apply_params first of all -- assign attributes on what it returns, and the alias
+    analysis of C16 takes `replace()` for a constructor.  That is only true of the package's own overrides if every returning path hands
+    back the object `super().replace(...)` built: a shortcut `return self` when "nothing changes" makes apply_params write the provenance
+    map of the *input* signature."""
+    repo = check.repo
+    n = 0
+    for cname in UPGRADED:
+        ci = repo.cls('%s:%s' % (SIG, cname))
+        m = ci.methods.get('replace')
+        if m is None:
+            continue
+        n += 1
+        check.analysed(m)
+        selfn = m.params()[0][0]
+        key = 'replace-fresh|%s' % cname
+        bad = [r for r in ast.walk(m.node) if isinstance(r, ast.Return) and isinstance(r.value, ast.Name) and r.value.id == selfn]
+        if bad:
+            check.violation(rule, site_of(m, bad[0]), '%s.replace returns the receiver itself on some path: its callers assign attributes on the result '
+                            '(apply_params sets .sources), which then edits the input' % cname, key=key,
+                            witness="merge(a, b) with a result equal to a: a.sources is replaced by the merged map")
+        else:
+            check.holds(rule, site_of(m, m.node), '%s.replace never returns its receiver' % cname, key=key)
+    check.floor(rule, 'replace overrides', n, 2)
+
+
+def rule_owner_capability_test(check, rule):
+    """C11.R8 (round 8): the function annotations are upgraded against must be able to answer two questions -- its compiler flags
+    (`__code__.co_flags`) and its globals.  The helpers that pick it accept a candidate by *that capability* (`hasattr(x, '__code__')`): a
+    test on its type (inspect.isfunction, isinstance FunctionType) turns away bound methods, which have both, and their annotations are
+    then evaluated in the wrapper's module or left as text."""
+    repo = check.repo
+    n = 0
+    for name in ('_annotations_owner', '_copied_annotations_owner'):
+        fi = repo.func('%s:%s' % (SIG, name), required=False)
+        if fi is None:
+            continue
+        n += 1
+        check.analysed(fi)
+        key = 'owner-capability|%s' % name
+        type_tests = [c for c in ast.walk(fi.node) if isinstance(c, ast.Call) and (
+            norm(c.func).split('.')[-1] in ('isfunction', 'ismethod', 'isroutine') or
+            (norm(c.func) == 'isinstance' and len(c.args) == 2 and 'Type' in norm(c.args[1])))]
+        cap = [c for c in ast.walk(fi.node) if isinstance(c, ast.Call) and norm(c.func) in ('hasattr', 'getattr') and len(c.args) >= 2
+               and isinstance(c.args[1], ast.Constant) and c.args[1].value == '__code__']
+        if type_tests:
+            check.violation(rule, site_of(fi, type_tests[0]), '%s accepts the owner by its type (%s): a bound method has code and globals too, and is '
+                            'turned away' % (name, norm(type_tests[0])[:50]), key=key,
+                            witness='functools.wraps(instance.method)(w) with the method defined in another (postponed) module')
+        elif cap:
+            check.holds(rule, site_of(fi, cap[0]), '%s accepts the owner by what evaluation needs of it (__code__)' % name, key=key)
+        else:
+            check.inconclusive(rule, site_of(fi, fi.node), 'how %s accepts the owner is not understood' % name, key=key)
+    check.floor(rule, 'owner helpers', n, 1)
+
+
+def rule_no_whole_parameter_equality(check, rule):
+    """C01.R7b (round 8; D39's family): `left == right` on two Parameter objects compares their defaults and annotations with `==` before
+    anything has established that both *have* one: Parameter.empty equals a default whose __eq__ answers True for everything, so a
+    shortcut "they are equal, nothing to concile" keeps a default the other side does not have.  The methods of the merger do not compare
+    whole parameters."""
+    repo = check.repo
+    ci = repo.cls('%s:_Merger' % SIG)
+    n = 0
+    bad = []
+    for meth in ci.methods.values():
+        pos = set(meth.params()[0][1:])
+        for c in ast.walk(meth.node):
+            if isinstance(c, ast.Compare) and len(c.ops) == 1 and isinstance(c.ops[0], (ast.Eq, ast.NotEq)):
+                n += 1
+                a, b = c.left, c.comparators[0]
+                if isinstance(a, ast.Name) and isinstance(b, ast.Name) and a.id in pos and b.id in pos:
+                    bad.append((meth, c))
+        check.analysed(meth)
+    key = 'whole-parameter-equality|_Merger'
+    if bad:
+        meth, c = bad[0]
+        check.violation(rule, site_of(meth, c), '%s in %s compares two parameters as wholes: their defaults are compared with == before it is known '
+                        'that both have one (Parameter.empty == mock.ANY)' % (norm(c), meth.name), key=key,
+                        witness="merge(signature(lambda a=mock.ANY: 0), s('a')) keeps the default the right input does not have")
+    else:
+        check.holds(rule, '%s:%d %s' % (ci.module.relpath, ci.node.lineno, ci.key), 'no method of _Merger compares two parameters as wholes (%d equality '
+                    'tests looked at)' % n, key=key)
